@@ -993,6 +993,12 @@ func runMinimize(t *simrt.Tape, rc *RunCtx) *Violation {
 			return v
 		}
 	} else {
+		// C09 "always terminate": a run that has returned does not report
+		// itself as not terminated
+		rc.oracle("terminated-status")
+		if res.Status == optimize.NotTerminated {
+			return &Violation{prop, "minimize/status/NotTerminated", fmt.Sprintf("%s with Concurrent=%d returned with status NotTerminated (err %v)", name, in.conc, err)}
+		}
 		if v := checkSerialAnswer(rc, in, r); v != nil {
 			return v
 		}
